@@ -108,9 +108,13 @@ def rename_world(w, i):
     nfiles = {"%s_%s" % (sub, name): t for name, t in files.items()}
     ncomps = {(pkg, "%s_%s" % (sub, f)): t for (pkg, f), t in comps.items()}
     for t in list(nfiles.values()) + list(ncomps.values()):
+        pfx = t["a"].get("prefix") or ""
         for _, n in sd.walk(t):
             if n["tag"] == "import":
-                if n["a"].get("package") and (n["a"]["package"], n["a"].get("file") or "component.xml") in comps:
+                pkg = n["a"].get("package") or ""
+                if pkg.startswith("."):
+                    pkg = pfx + pkg           # a relative package name is resolved against the document's prefix
+                if pkg and (pkg, n["a"].get("file") or "component.xml") in comps:
                     n["a"]["file"] = "%s_%s" % (sub, n["a"].get("file") or "component.xml")
                 if n["a"].get("src") in files:
                     n["a"]["src"] = "%s_%s" % (sub, n["a"]["src"])
